@@ -193,3 +193,30 @@ Proof.
   split; [apply Z.div_pos; lia|].
   apply Z.div_lt_upper_bound; [lia|]. nia.
 Qed.
+
+Lemma land_u_range a b n : 0 <= n -> 0 <= a < 2 ^ n -> 0 <= Z.land a b < 2 ^ n.
+Proof.
+  intros Hn Ha.
+  assert (E : a = Z.land a (Z.ones n)) by (rewrite Z.land_ones, Z.mod_small; lia).
+  rewrite E. rewrite <- Z.land_assoc, (Z.land_comm (Z.ones n)), Z.land_assoc, Z.land_ones by lia.
+  apply Z.mod_pos_bound. apply Z.pow_pos_nonneg; lia.
+Qed.
+
+(** [x & ^63] on an int32 ([Z.land x (-64)]) is x rounded down to a multiple of 64 *)
+Lemma land_m64 x : Z.land x (-64) = 64 * (x / 64).
+Proof.
+  change (-64) with (Z.lnot (Z.ones 6)). rewrite <- Z.ldiff_land, Z.ldiff_ones_r by lia.
+  rewrite Z.shiftl_mul_pow2, Z.shiftr_div_pow2 by lia. change (2 ^ 6) with 64. lia.
+Qed.
+
+Lemma land_m64_range x : x - 63 <= Z.land x (-64) <= x.
+Proof. rewrite land_m64. pose proof (Z.div_mod x 64 ltac:(lia)). pose proof (Z.mod_pos_bound x 64 ltac:(lia)). lia. Qed.
+
+Lemma land_m64_lb x : - 2 ^ 31 <= x -> - 2 ^ 31 <= Z.land x (-64).
+Proof.
+  intros H. rewrite land_m64.
+  assert (- 2 ^ 25 <= x / 64) by (apply Z.div_le_lower_bound; lia). lia.
+Qed.
+
+Lemma lz64_range z : 0 <= z < 2 ^ 64 -> 0 <= lz64 z <= 64.
+Proof. intros H. unfold lz64. pose proof (bitlen_nonneg z). pose proof (bitlen_le z 64 ltac:(lia) H). lia. Qed.
